@@ -205,10 +205,38 @@ func scenRealDiskDrop(k *K) {
 	func() {
 		defer func() {
 			if r := recover(); r != nil {
+				if v, ok := r.(violationPanic); ok {
+					panic(v)
+				}
 				k.Failf("C18/real/panic", "Close/Drop or a call on the closed store panicked: %v", r)
 			}
 		}()
-		if drop {
+		if drop && k.C.Chance(1, 3) {
+			// the handle is closed, the application opens the database again, and only then
+			// drops it through the old handle
+			k.W.Stat("real-drop-through-closed-handle-after-reopen")
+			if err := T.st.Close(); err != nil {
+				k.Failf("C18/real/close-error", "%v", err)
+			}
+			again, err := db.Open(ctx, T.addr, nil)
+			if err != nil {
+				k.Failf("C18/real/reopen", "%v", err)
+			}
+			done := make(chan error, 1)
+			go func() { done <- T.st.Drop() }()
+			select {
+			case <-done:
+			case <-time.After(6 * time.Second):
+				k.Failf("C18/real/drop-hang", "Drop on a closed store whose database had been opened again did not return within 6 s (real time)")
+			}
+			cdone := make(chan error, 1)
+			go func() { cdone <- again.Close() }()
+			select {
+			case <-cdone:
+			case <-time.After(6 * time.Second):
+				k.Failf("C18/real/close-hang", "Close of the second handle after the Drop through the first did not return within 6 s (real time)")
+			}
+		} else if drop {
 			if err := T.st.Drop(); err != nil {
 				k.Failf("C18/real/drop-error", "%v", err)
 			}
